@@ -218,17 +218,22 @@ pub fn main() -> i32 {
         }
     }
 
-    // ---- aux getters
-    rec(b'U', &(tiny_std::elf::aux::get_uid() as u64).to_le_bytes());
-    rec(b'G', &(tiny_std::elf::aux::get_gid() as u64).to_le_bytes());
-    match tiny_std::elf::aux::get_random() {
-        Some(r) => rec2(b'R', &[1], &r.to_ne_bytes()),
-        None => rec(b'R', &[0]),
+    // ---- aux getters (only with the `aux` feature; the minimal build says so instead)
+    #[cfg(feature = "full")]
+    {
+        rec(b'U', &(tiny_std::elf::aux::get_uid() as u64).to_le_bytes());
+        rec(b'G', &(tiny_std::elf::aux::get_gid() as u64).to_le_bytes());
+        match tiny_std::elf::aux::get_random() {
+            Some(r) => rec2(b'R', &[1], &r.to_ne_bytes()),
+            None => rec(b'R', &[0]),
+        }
+        match tiny_std::elf::aux::get_exec_fn() {
+            Some(e) => rec2(b'E', &[1], contents(e)),
+            None => rec(b'E', &[0]),
+        }
     }
-    match tiny_std::elf::aux::get_exec_fn() {
-        Some(e) => rec2(b'E', &[1], contents(e)),
-        None => rec(b'E', &[0]),
-    }
+    #[cfg(not(feature = "full"))]
+    rec(b'M', &[]);
 
     // ---- the kernel's own record of the aux vector
     let mut auxv = Vec::new();
